@@ -14,7 +14,7 @@ from ref import match as R
 
 ID = 'C05'
 LEVEL = 'model_checking'
-BUDGET = {'quick': 240, 'thorough': 2400}
+BUDGET = {'quick': 600, 'thorough': 2400}
 RULE = ('every (pattern, mode, path) triple inside the bound is enumerated (mixed-radix product, sharded by pattern '
         'index); a triple is non-trivial when the reference says the route must match or when the path shares at '
         'least its first segment with the pattern; distinct = distinct (verdict class, mode, pattern shape) outcomes')
